@@ -40,6 +40,21 @@ def _mk(name, props):
                 yield "positive-convertible", z3.And(mval(c, q) > 0, mkind(c, q) != K_DEC, pval_z(c, c.fz("Unit", c.f(q, "unit"), "prefix")) > 0,
                                                      c.fz("Unit", c.f(q, "unit"), "dimension") == c.fz("Unit", c.f(ref, "unit"), "dimension"),
                                                      z3.Not(noconv(c.fz("Unit", c.f(q, "unit"), "factors"), c.fz("Unit", c.f(ref, "unit"), "factors"))))
+        if name.startswith(("conv_", "canary_conv")):
+            # C05: every unit involved is offset-free, of the quantity's dimension, and connected to the others
+            from .c_quantity import mkind
+            us = [VObj("Unit", c.f(v, "unit")) for v in vals if v.cls == "Quantity"] + [v for v in vals if v.cls == "Unit"]
+            for v in vals:
+                if v.cls == "Quantity":
+                    yield "float-or-int-magnitude", mkind(c, v) != K_DEC
+            for i, ui in enumerate(us):
+                yield "offset-free-unit-%d" % i, offset_free_m(c.fz("Unit", ui.ref, "factors"))
+                yield "positive-prefix-%d" % i, pval_z(c, c.fz("Unit", ui.ref, "prefix")) > 0
+                for j, uj in enumerate(us):
+                    if i != j:
+                        yield "convertible-%d-%d" % (i, j), z3.And(z3.Not(noconv(c.fz("Unit", ui.ref, "factors"), c.fz("Unit", uj.ref, "factors"))),
+                                                                  c.fz("Unit", ui.ref, "dimension") == c.fz("Unit", uj.ref, "dimension"))
+            return
         qs = [v for v in vals if v.cls == "Quantity"] if not lus else []
         if qs or lus:
             pfx = []
@@ -70,6 +85,6 @@ BOUNDED_ONLY = {"prefix_associative", "unit_associative", "unit_exponent_sum", "
 
 for _n in ast.parse(open(SRC).read()).body:
     if isinstance(_n, ast.FunctionDef) and _n.name not in BOUNDED_ONLY:
-        _canary = {"canary_unit": ("C01", "C02", "C11"), "canary_prefix": ("C02", "C11"), "canary_dim": ("C02",), "canary_qty": ("C06", "C12"), "canary_level": ("C18",)}
-        _p = _canary[_n.name] if _n.name in _canary else ("C02", "C11") if _n.name.startswith(("prefix", "prefixed")) else ("C12",) if _n.name.startswith("qty_") else ("C18",) if _n.name.startswith("level_") else ("C02",)
+        _canary = {"canary_unit": ("C01", "C02", "C11"), "canary_prefix": ("C02", "C11"), "canary_dim": ("C02",), "canary_qty": ("C06", "C12"), "canary_level": ("C18",), "canary_conv": ("C05",)}
+        _p = _canary[_n.name] if _n.name in _canary else ("C02", "C11") if _n.name.startswith(("prefix", "prefixed")) else ("C12",) if _n.name.startswith("qty_") else ("C18",) if _n.name.startswith("level_") else ("C05",) if _n.name.startswith("conv_") else ("C02",)
         _mk(_n.name, _p)
